@@ -156,6 +156,50 @@ func init() {
 			return viol, nt
 		},
 	})
+	// ------------------------------------------------------------------ C08
+	register(&Prop{
+		ID: "C08", Level: "exploration", QuickS: 25, ThoroughS: 420,
+		Rule: "seeded extended-protocol histories over statements with 0-5 declared parameter types and typed columns: Bind messages with NULL / empty / NUL-containing / multi-KiB values, parameter-format lists of length 0, 1 and n, result-format lists of length 0, 1 and n, and 0-3 other messages (Describe, Parse of other names with long texts, simple queries, stray CopyData) between Bind and Execute; the statement function records count, Value(), Format() and Scan(declared oid) of every parameter; compared with the reference model and the independent codecs, including the RowDescription/DataRow formats of the portal and the ParameterDescription of the statement; non-trivial = a statement function ran with at least one parameter; distinct = distinct case content hashes",
+		Components: e1Components, Assumptions: commonAssumptions,
+		Gen: func(r *Rand, tier string) *Case {
+			c := &Case{Server: ServerCfg{Limit: r.PickInt(4096, 16384, 65536, 65536)}}
+			genHistory(r, c, histOpts{extended: true, simple: r.Chance(1, 4), params: true, binary: true, between: true, bigValues: true, closes: r.Chance(1, 4), maxUnits: 6})
+			return c
+		},
+		Check: func(x *Exec, c *Case) ([]Violation, bool) {
+			viol, r, _ := modelCheck("C08", x, c)
+			nt := false
+			for _, cs := range r.Conns {
+				for _, e := range cs.Events {
+					if e.K == "stmt" && !strings.HasSuffix(e.S, "nparams=0") {
+						nt = true
+					}
+				}
+			}
+			return viol, nt
+		},
+	})
+	// ------------------------------------------------------------------ C09
+	register(&Prop{
+		ID: "C09", Level: "exploration", QuickS: 25, ThoroughS: 420,
+		Rule: "seeded sessions whose statements write rows over bool/int2/int4/int8/oid/float4/float8/text/varchar/bytea/uuid/date/timestamp/timestamptz columns with boundary and random values (min/max, +-0, NaN, +-Inf, empty and multi-byte strings, empty and NUL-containing bytea, zero UUID) in the Go representations a handler would use (native values, pointers, pgtype structs), text format (simple protocol) and per-column text/binary result formats (extended protocol), SQL NULL written as untyped nil, typed nil pointer or invalid pgtype value in any position; the same OID is encoded from different Go types in varying order within a connection; every DataRow is decoded by the independent codecs; non-trivial = at least one DataRow was produced and decoded; distinct = distinct case content hashes",
+		Components: e1Components, Assumptions: commonAssumptions,
+		Gen: func(r *Rand, tier string) *Case {
+			c := &Case{Server: ServerCfg{Limit: smallLimit(r)}}
+			genHistory(r, c, histOpts{simple: true, extended: true, binary: true, rich: true, typedNull: true, multi: true, abuse: r.Chance(1, 3), maxUnits: 6})
+			return c
+		},
+		Check: func(x *Exec, c *Case) ([]Violation, bool) {
+			viol, r, _ := modelCheck("C09", x, c)
+			nt := false
+			for _, cs := range r.Conns {
+				if strings.IndexByte(pgwire.Kinds(ParseOut(cs).Msgs), 'D') >= 0 {
+					nt = true
+				}
+			}
+			return viol, nt
+		},
+	})
 	// ------------------------------------------------------------------ C07
 	register(&Prop{
 		ID: "C07", Level: "exploration", QuickS: 25, ThoroughS: 420,
